@@ -15,9 +15,15 @@ def translate():
     from harness.common import Broken
     p = os.path.join(os.path.dirname(os.path.dirname(os.path.dirname(os.path.abspath(__file__)))), "tools", "tr_rules.py")
     spec = importlib.util.spec_from_file_location("tr_rules", p); m = importlib.util.module_from_spec(spec); spec.loader.exec_module(m)
-    try: return m.run()
+    try: out = m.run()
     except m.Refuse as e: raise Broken("tr_rules refused: %s" % e, str(e))
-TRUSTED = ["translator tools/tr_rules.py (engine tools/tr_cython.py): the firing conditions of Rule.execute_rule / execute_volume_rule are regenerated from bioscrape/types.pyx on every run and proved equal to the model's `fires` (Proofs/TieRules.v)",
+    p2 = os.path.join(os.path.dirname(p), "tr_ruleops.py")
+    spec2 = importlib.util.spec_from_file_location("tr_ruleops", p2); m2 = importlib.util.module_from_spec(spec2); spec2.loader.exec_module(m2)
+    try: out.update(m2.run())
+    except m2.Refuse as e: raise Broken("tr_ruleops refused: %s" % e, str(e))
+    return out
+TRUSTED = ["translator tools/tr_ruleops.py (same engine): the operations of AdditiveAssignmentRule, GeneralAssignmentRule and GeneralODERule (plain and volume variants) are regenerated from bioscrape/types.pyx on every run and proved equal to the model's rule_operation (Proofs/TieRuleOps.v); the rule's right-hand side Term is an oracle there (tied by C02's correspondence)",
+           "translator tools/tr_rules.py (engine tools/tr_cython.py): the firing conditions of Rule.execute_rule / execute_volume_rule are regenerated from bioscrape/types.pyx on every run and proved equal to the model's `fires` (Proofs/TieRules.v)",
            "hand models coq/Model/Rules.v (rule operations), SSA.v tied by stream replay", "deterministic and lineage single-cell modes are decided by the harness oracle only"]
 ASSUMPTIONS = ["generic position: no reaction time coincides with a grid time", "per elapsed step is counted from the second row on (quantifier)"]
 MODES = ["det", "ssa", "ssa_safe", "vssa", "dssa", "dvssa", "lineage"]
